@@ -91,7 +91,7 @@ class Check:
         nodes = [{"path": top, "type": "dir"}]
         n = rng.randint(60, 110)
         for i in range(n):
-            nodes.append({"path": "%s/f%03d%s" % (top, i, "".join(rng.choice("abcxyz") for _ in range(rng.randint(0, 8)))), "type": "file", "content": "x" * rng.choice([0, 5, 10, 100])})
+            nodes.append({"path": "%s/f%03d%s" % (top, i, "".join(rng.choice("abcxyz\u00fc\u65e5") for _ in range(rng.randint(0, 8)))), "type": "file", "content": "x" * rng.choice([0, 5, 10, 100])})
         nodes.append({"path": top + "/0", "type": "file", "content": ""})
         world = {"nodes": nodes}
         plan = {"entropy": rng.getrandbits(48), "clock": [1700000000 * 10 ** 9, 0], "order": {top: ["0"]}}
@@ -222,6 +222,12 @@ class Check:
         tops = [rng.choice(gen.SAFE_ROOTS)]
         world = gen.gen_tree(rng, tops, max_entries=rng.choice([0, 1, 3, 6, 10, 25, 40]) if tier == "quick" else rng.choice([0, 2, 6, 12, 30, 60]), max_depth=3,
                              kinds={"file": 8, "dir": 3, "symlink": 1}, adversarial=rng.choice([0, 0.3]))
+        if rng.random() < 0.5:
+            # multi-byte names: a short write or a closed pipe may cut the stream inside a character
+            have = {n["path"] for n in world["nodes"]}
+            for nm_ in rng.sample(["\u00fc", "\u65e5\u672c\u8a9e.txt", "\u00e9.c", "na\u00efve \u2603", "\U0001f600.md", "\u00df\u00df\u00df", "z\u0301"], rng.choice([2, 4, 7])):
+                if tops[0] + "/" + nm_ not in have:
+                    world["nodes"].append({"path": tops[0] + "/" + nm_, "type": "file", "content": "x"})
         roots = [{"top": tops[0], "kind": "rel", "mind": 0, "maxd": 0, "mode": rng.choice(["bfs", "dfs"])}]
         _, env = gen.gen_env(rng, world)
         return {"sub": "C", "world": world, "roots": roots, "plan": env, "format": rng.choice(FORMATS),
@@ -349,6 +355,14 @@ class Check:
                     viols.append(Violation(PROP, "C17.C.control", ["C17.C", "control", fmt, shape], {"query": q, "outcome": r0.summary()}))
                     return viols
                 S = r0.stdout
+                if k % 4 == 1:
+                    ps = copy.deepcopy(plan)
+                    ps["out_accept"] = {"cycle": True, "sizes": [1021 + k, 3]}
+                    rs_ = sb.run([q], plan=ps)
+                    if crashy(rs_) or rs_.stdout != S or rs_.status != 0:
+                        viols.append(Violation(PROP, "C17.C.short", ["C17.C", "short_writes_change_stream", fmt, shape],
+                                               {"query": q, "schedule": ps["out_accept"], "leading_name_len": k, "only_k": k, "outcome": rs_.summary(), "want_len": len(S), "got_len": len(rs_.stdout)}))
+                        return viols
                 for W in (0, 1000, 1024, 2048, 3072):
                     if W > len(S):
                         continue
@@ -775,11 +789,15 @@ class Check:
             L = len(S)
             ctx.metric("C_cases")
             # short writes only: the stream must be delivered intact
-            p2 = copy.deepcopy(plan)
-            p2["out_accept"] = case["short"]
-            r2 = sb.run([q], plan=p2)
-            if crashy(r2) or r2.stdout != S or r2.status != 0:
-                viols.append(Violation(PROP, "C17.C.short", ["C17.C", "short_writes_change_stream", fmt, shape], {"query": q, "schedule": case["short"], "outcome": r2.summary(), "want_len": L, "got_len": len(r2.stdout)}))
+            schedules = [case["short"]] + ([{"cycle": True, "sizes": [1]}, {"cycle": True, "sizes": [2, 3]}] if L <= 2000 else [{"cycle": True, "sizes": [997]}])
+            for sched in schedules:
+                p2 = copy.deepcopy(plan)
+                p2["out_accept"] = sched
+                p2["budget"] = 5000 + 40 * len(world["nodes"]) + 3 * L
+                r2 = sb.run([q], plan=p2)
+                if crashy(r2) or r2.stdout != S or r2.status != 0:
+                    viols.append(Violation(PROP, "C17.C.short", ["C17.C", "short_writes_change_stream", fmt, shape], {"query": q, "schedule": sched, "outcome": r2.summary(), "want_len": L, "got_len": len(r2.stdout)}))
+                    break
             if L > case.get("maxL", 3000):
                 import random
                 rr = random.Random(L)
